@@ -64,6 +64,19 @@ def clean_start():
     return True
 
 
+def shutdown():
+    """stop the pristine server of this process (and reap it)"""
+    global _PRISTINE
+    if _PRISTINE is not None:
+        p, _PRISTINE = _PRISTINE, None
+        try:
+            p.conn.send(None)
+            p.conn.close()
+            _os.waitpid(p.pid, 0)
+        except Exception:
+            pass
+
+
 def chunk_end_clean():
     setup()
     return G.diff_full() is None
@@ -114,6 +127,8 @@ class Pristine:
             try:
                 req = conn.recv()
             except (EOFError, OSError):
+                return
+            if req is None:
                 return
             pid = os.fork()
             if pid == 0:
@@ -322,7 +337,59 @@ def gen_plan(S, index, tier):
     lazy_runs = len(lazies) * len(queries) * 2
     if index < pair_runs + sweep_runs + sandwich_runs + lazy_runs:
         return _gen_lazy_pair_plan(S, index - pair_runs - sweep_runs - sandwich_runs, header, lazies, queries)
-    return _gen_random_plan(S, header, tier)
+    same_runs = len(lazies) * 8
+    if index < pair_runs + sweep_runs + sandwich_runs + lazy_runs + same_runs:
+        return _gen_same_call_plan(S, index - pair_runs - sweep_runs - sandwich_runs - lazy_runs, header, lazies)
+    plan = _gen_random_plan(S, header, tier)
+    if index % 8 == 3:
+        plan['header']['cold'] = True      # restart fault: this run executes in a process that has run nothing
+    return plan
+
+
+_SAME_PAIRS = [(0, 1), (2, 4), (1, 0), (4, 2)]      # FIXED_SPECS of equal length
+
+
+def _gen_same_call_plan(S, k, header, lazies):
+    """two clients make the *same* lazy call - on one shared object, or on two unrelated objects of equal length -
+    and consume their results interleaved, the later one overtaking the earlier; in a process that has executed
+    nothing before (restart fault), so that whatever the library builds on first use is being built right now"""
+    li, v = divmod(k, 8)
+    a, b = _SAME_PAIRS[v % 4]
+    cfg = SP.swarm_cfg(S)
+    pool, W = _mk_world(S, cfg, [copy.deepcopy(world.FIXED_SPECS[a]), copy.deepcopy(world.FIXED_SPECS[b])],
+                        ['parse', 'parse'], 'quick')
+    W['sticky']['enzyme'] = S.pick(['trypsin', 'trypsin/P', '([KR])', 'lys-c', 'asp-n', '(?=D)', 'non-specific'])
+    lname = lazies[li]
+    header.update({'mode': 'same-call', 'pair': [lname, lname], 'clients': 2, 'faults': ['interleave', 'restart'],
+                   'cold': True})
+    W1 = dict(W, kinds=dict(W['kinds'], ann=['A0']))
+    la = None
+    for _ in range(6):
+        la = la or OPS[lname].gen(S, W1)
+    events = []
+    if la is None:
+        return {'header': header, 'pool': pool, 'events': events}
+    lb = copy.deepcopy(la)
+    if v >= 4:      # the other client asks about its own, unrelated object
+        for an, av in lb.items():
+            if isinstance(av, dict) and av.get('h') == 'A0':
+                lb[an] = {'h': 'A1'}
+    events.append({'act': 'call', 'client': 0, 'op': lname, 'args': la, 'out': 'R0', 'twin_first': False,
+                   'ref': 'pristine'})
+    for _ in range(S.randint(0, 2)):
+        events.append({'act': 'step', 'client': 0, 'lazy': 'R0'})
+    events.append({'act': 'call', 'client': 1, 'op': lname, 'args': lb, 'out': 'R1', 'twin_first': False,
+                   'ref': 'pristine'})
+    n1 = S.randint(1, 4)
+    for _ in range(n1):
+        events.append({'act': 'step', 'client': 1, 'lazy': 'R1'})
+    events.append({'act': 'step', 'client': 0, 'lazy': 'R0'})
+    order = [('drain', 1, 'R1'), ('drain', 0, 'R0')]
+    if S.coin(0.3):
+        order.reverse()
+    for act, c, r in order:
+        events.append({'act': act, 'client': c, 'lazy': r})
+    return {'header': header, 'pool': pool, 'events': events}
 
 
 def _gen_lazy_pair_plan(S, k, header, lazies, queries):
@@ -337,6 +404,8 @@ def _gen_lazy_pair_plan(S, k, header, lazies, queries):
     W['sticky']['enzyme'] = S.pick(['trypsin', 'trypsin/P', '([KR])', 'lys-c', 'asp-n', '(?=D)'])
     lname, qname = lazies[li], queries[qi]
     header.update({'mode': 'lazy-pair', 'pair': [lname, qname], 'clients': 2, 'faults': ['interleave', 'abandon']})
+    if rep == 1:
+        header['cold'] = True             # restart fault: the second pass of the family runs in cold processes
     events = []
     la = qa = None
     for _ in range(6):
@@ -1120,10 +1189,24 @@ def _do_scribble(run, ev_i, ev):
     if OPS[r['op']].accessor:
         return False
     snaps = run.snap_pool()
+    g0 = G.cheap()
+    deep = ev['k'] % 3 == 0 and isinstance(r['val'], (dict, list, set, tuple))   # content hash: a third of the
+    c0 = glob.const_full() if deep else None                                      # container-valued results
     how = world.scribble(r['val'], ev['k'], list(run.pool.values()))
     out.record([ev_i, 'scribble', how])
     if how is None:
         return False
+    # a returned value must not be (part of) a process-wide table either: editing it must leave the vocabularies and
+    # the module-level constant tables alone
+    gd = glob.Globals.diff_cheap(g0, G.cheap())
+    if gd is None and deep:
+        c1 = glob.const_full()
+        gd = next((k for k in c1 if c1[k] != c0.get(k)), None)
+    if gd is not None:
+        if run.violation('ALIAS', r['op'], 'process-wide:' + gd,
+                         f"ALIAS: editing the value returned by {r['op']} changed the process-wide table '{gd}' - the "
+                         f"result shares mutable state with it", ev_i, None):
+            return True
     out.faults['scribble'] += 1
     del run.results[ev['res']]    # the client edited its own result: it no longer equals a re-computation
     # ... and a suspended computation that was given this result as its argument may or may not see the edit
